@@ -143,7 +143,7 @@ fn status_of(http: &Http, srv: &Srv, path: &str, ck: &mut Ck) -> u16 {
 
 pub fn run(ctx: &Ctx) -> Report {
   let mut report = Report::new("C18", &ctx.tier, "exploration");
-  let children = if ctx.thorough() { 201 } else { 101 };
+  let children = if ctx.thorough() { 301 } else { 201 };
   let groups: Vec<usize> = if ctx.thorough() { vec![99, 100, 199, 200] } else { vec![99, 100] };
   let rz = build(children, &groups);
   let scratch = Scratch::new("srv-json");
@@ -561,7 +561,7 @@ pub fn run(ctx: &Ctx) -> Report {
   report.set(
     "rule",
     format!(
-      "one relations zoo (parents with 99, 100 and {children} children, each group revealed on one sat in one block (thorough adds 199, 200, 201), children of two parents, an unbound, a burned and a fee-spent inscription, two envelopes in one input, a rune with balances on two outputs, \
+      "one relations zoo (parents with 99, 100 and {children} children, each group revealed on one sat in one block (quick: 201 children of one parent = three pages; thorough: 301 and groups of 199, 200), children of two parents, an unbound, a burned and a fee-spent inscription, two envelopes in one input, a rune with balances on two outputs, \
        three scripts) indexed with all indexes and served by Server::run; for EVERY inscription, unspent output, height, inscribed sat, rune, script and transaction every JSON / recursive route is requested (by id and by number, all pages, \
        sat indices -(k+1)..k) and compared with direct Index queries and the chain data; distinct_nontrivial = distinct paths requested"
     ),
